@@ -678,3 +678,14 @@ SPECS["C06"]["contracts"] += ["smpl_extract.actions:export_samples_to_wav"]
 SPECS["C05"]["contracts"] += ["smpl_extract.actions:export_samples_to_wav"]
 SPECS["C10"]["level_text"] += "; ls_action answers a path that does not resolve (prints the message) and lets no ErrorInvalidPath out"
 SPECS["C06"]["level_text"] += "; export_samples_to_wav roots the export manager at exactly the directory given and installs the naming table (safe names, then export names)"
+
+# C13 / C14 / C15: a partition that declares no sectors is rejected (the scan always moves on); bad names surface as ConstructError
+for _p in ("C13", "C14", "C15"):
+    SPECS[_p]["contracts"] += ["smpl_extract.akai.partition:PartitionAdapter._parse"]
+SPECS["C13"]["level_text"] += "; PartitionAdapter._parse accepts only a partition whose header declares at least one sector (the part of the partition-scan assumption that is repository code)"
+
+# C01: the volumes of one partition
+SPECS["C01"]["contracts"] += [f"smpl_extract.akai.volume:VolumesAdapter._decode_element[entries={n}]" for n in (1, 2, 3)]
+SPECS["C01"]["level_text"] += ("; VolumesAdapter._decode_element (1..3 table entries): one volume per ACTIVE entry in table order, under its name below the partition's path, its file table read from "
+                               "the chain at its own start sector of this partition's table")
+SPECS["C01"]["not_covered"] = ["FileEntriesAdapter / PartitionAdapter context passing (construct plumbing: `this._.sat`, Lazy, Computed file streams)"]
